@@ -3,7 +3,7 @@ from harness import common, layerb as B, schemes as S
 
 from univers.version_constraint import VersionConstraint, contains_version
 
-MODULES = ["Univers.Props.C04", "Univers.Props.Schemes", "Univers.Text.EndToEndThm"]
+MODULES = ["Univers.Props.C04", "Univers.Props.Schemes", "Univers.Text.EndToEndThm", "Univers.Text.EndToEndGem"]
 LEVEL = "proof"
 RULE = ("bounded-exhaustive: every comparator sequence over the six versioned comparators up to length L on "
         "version-sorted distinct versions x every probe position (at, below, above and between every constraint "
